@@ -10,10 +10,13 @@
    until the exp of the assertion that carried it; the expiry instant of a second-granular
    credential is the end of the second named by exp.
 
-   Two clauses of the property are FALSE of the faithful model and are stated as refutations:
-     C15_client_assertion_unexpired_refuted   (exp = 0 is accepted as "unexpired")
-     C15_client_assertion_once_refuted        (one client assertion accepted twice, inside the second named by exp)
-   Full statements that are therefore only proved in part are marked _partial. *)
+   History: on the library before commit 3e32ae1 two clauses were false of the faithful model (exp = 0
+   accepted as unexpired; one client assertion accepted twice inside the second named by its exp)
+   and were stated as _refuted / _partial pairs.  The library was repaired (client_authentication.go
+   now refuses an assertion whose expiry instant has passed, before the jti is recorded); the model
+   follows the repaired code and every clause is now stated and proved at full strength.  The old
+   witnesses are kept as Examples with their repaired verdicts in Proofs/JwtExamples.v
+   (exp_zero_refused, replay_in_final_second_refused, race_in_final_second_refused). *)
 From FositeModel Require Import Base.Str Model.Scope Model.Assertion
      Proofs.JwtStore Proofs.AssertionProofs Proofs.JwtHistory Proofs.JwtExamples Cases.CasesC15 Proofs.MonitorC15.
 Local Open Scope Z_scope.
@@ -27,10 +30,8 @@ Theorem C15_client_assertion_iff : forall tus clients nw st a cid sub st',
 Proof. exact client_auth_accept_iff. Qed.
 Print Assumptions C15_client_assertion_iff.
 
-(* FULL STATEMENT (not provable, see the refutation below): as the next theorem but with
-   [unix nw <= e] instead of [(unix nw <= e \/ e = 0)].
-   Proved: every clause of the first sentence, with "unexpired" weakened by the case exp = 0. *)
-Theorem C15_client_assertion_clauses_partial : forall tus clients nw st a cid sub st',
+(* every clause of the first sentence, at full strength, for every input *)
+Theorem C15_client_assertion_clauses : forall tus clients nw st a cid sub st',
   client_auth tus clients nw st a = (st', Acc cid sub) ->
   exists c keys k j e,
     find_client clients cid = Some c /\ c_method c = "private_key_jwt" /\
@@ -44,19 +45,21 @@ Theorem C15_client_assertion_clauses_partial : forall tus clients nw st a cid su
     ca_iss a = JStr cid /\ ca_sub a = JStr cid /\
     (* aud contains the token endpoint URL (string form or list form) *)
     aud_contains (ca_aud a) tus /\
-    (* exp is an int64 / float64 number and the current second is not after it -- or exp is 0 *)
-    to_int64 (ca_exp a) = Some e /\ (unix nw <= e \/ e = 0) /\
+    (* it is unexpired: exp is an int64 / float64 number e (float truncated by Go; 0 and fractions
+       included) whose instant has not passed, hence the current second is not after e either *)
+    to_int64 (ca_exp a) = Some e /\ nw <= e * 1000 /\ unix nw <= e /\
     (* jti is a non-empty string, not held by the replay memory, and recorded with exp *)
     ca_jti a = JStr j /\ j <> "" /\ jget (purge nw st) j = None /\ st' = (j, e) :: purge nw st.
 Proof. exact client_assertion_sound. Qed.
-Print Assumptions C15_client_assertion_clauses_partial.
+Print Assumptions C15_client_assertion_clauses.
 
-Theorem C15_client_assertion_unexpired_refuted :
-  exists tus clients nw st a st' cid e,
-    client_auth tus clients nw st a = (st', Acc cid "") /\
-    to_int64 (ca_exp a) = Some e /\ (e + 1) * 1000 <= nw.
-Proof. exact client_assertion_unexpired_refuted. Qed.
-Print Assumptions C15_client_assertion_unexpired_refuted.
+(* the clause that used to be refuted, on its own: no representation of exp (absent, null, string,
+   bool, list, int64, float64; 0; fractions; negative) lets an assertion through after its expiry instant *)
+Theorem C15_client_assertion_unexpired : forall tus clients nw st a cid sub st',
+  client_auth tus clients nw st a = (st', Acc cid sub) ->
+  exists e, to_int64 (ca_exp a) = Some e /\ nw <= e * 1000.
+Proof. exact client_assertion_unexpired. Qed.
+Print Assumptions C15_client_assertion_unexpired.
 
 (* ------------------------------------------------------------------ sentence 2: JWT-bearer grant *)
 Theorem C15_bearer_grant_iff : forall cfg tus iks nw st cl_id cl_grants b st' c s,
@@ -107,23 +110,31 @@ Theorem C15_bearer_assertion_once : forall w ops s i k si ri sk rk ca1 ca2 b c1 
 Proof. exact bearer_assertion_once. Qed.
 Print Assumptions C15_bearer_assertion_once.
 
-(* FULL STATEMENT (refuted below): two acceptances of one client assertion in a history are impossible.
-   Proved: a second acceptance can only lie after the instant of exp and inside the second named by
-   exp, or the assertion has exp = 0. *)
-Theorem C15_client_assertion_once_partial : forall w ops s i k si ri sk rk a c1 s1 c2 s2,
+(* a client assertion (fixed claims, hence fixed jti and exp) is accepted at most once in any history:
+   before, at and after its expiry *)
+Theorem C15_client_assertion_once : forall w ops s i k si ri sk rk a c1 s1 c2 s2,
   nth_error (trace w s ops) i = Some (si, OAuth a, ri) ->
   nth_error (trace w s ops) k = Some (sk, OAuth a, rk) -> (i < k)%nat ->
-  ri = Acc c1 s1 -> rk = Acc c2 s2 ->
-  exists e, to_int64 (ca_exp a) = Some e /\ e * 1000 < now sk /\ (now sk < (e + 1) * 1000 \/ e = 0).
-Proof. exact client_assertion_once_partial. Qed.
-Print Assumptions C15_client_assertion_once_partial.
+  ri = Acc c1 s1 -> rk = Acc c2 s2 -> False.
+Proof. exact client_assertion_once. Qed.
+Print Assumptions C15_client_assertion_once.
 
-Theorem C15_client_assertion_once_refuted :
-  exists w s a d c,
-    snd (run w s [OAuth a; OTick d; OAuth a]) = [Acc c ""; Acc "" ""; Acc c ""] /\
-    to_int64 (ca_exp a) <> Some 0.
-Proof. exact client_assertion_once_refuted. Qed.
-Print Assumptions C15_client_assertion_once_refuted.
+(* the general form, both kinds of assertion, any role, mixed use of one jti: a jti accepted with exp e1
+   is accepted again only by an assertion with a strictly later exp; so no (jti, exp) is accepted twice *)
+Theorem C15_jti_once : forall w ops s i k si oi ri sk ok rk j e1 e2,
+  nth_error (trace w s ops) i = Some (si, oi, ri) ->
+  nth_error (trace w s ops) k = Some (sk, ok, rk) -> (i < k)%nat ->
+  In (j, e1) (marks oi ri) -> In (j, e2) (marks ok rk) ->
+  e1 < e2.
+Proof. exact jti_once. Qed.
+Print Assumptions C15_jti_once.
+
+Theorem C15_assertion_once_any_role : forall w ops s i k si oi ri sk ok rk j e,
+  nth_error (trace w s ops) i = Some (si, oi, ri) ->
+  nth_error (trace w s ops) k = Some (sk, ok, rk) -> (i < k)%nat ->
+  In (j, e) (marks oi ri) -> In (j, e) (marks ok rk) -> False.
+Proof. exact client_assertion_once_any_role. Qed.
+Print Assumptions C15_assertion_once_any_role.
 
 (* ------------------------------------------------------------------ schedules *)
 (* any number of threads, each running any program of the shape
@@ -142,19 +153,18 @@ Theorem C15_bearer_race_once : forall cfg tus iks nw st (reqs : list (string * l
 Proof. exact bearer_race_once. Qed.
 Print Assumptions C15_bearer_race_once.
 
-(* FULL STATEMENT (refuted below): as the next theorem without its hypothesis.
-   Proved: client assertions that are not past the instant of their exp. *)
-Theorem C15_client_race_once_partial : forall tus clients nw st (asserts : list cassert) sched j,
-  (forall a e, In a asserts -> ca_jti a = JStr j -> to_int64 (ca_exp a) = Some e -> nw <= e * 1000) ->
+(* client assertions: unconditionally as well (a thread reaches the test-and-set only with an exp
+   whose instant has not passed) *)
+Theorem C15_client_race_once : forall tus clients nw st (asserts : list cassert) sched j,
   (wins j (snd (run_sched nw (st, map (fun a => (ca_flow tus clients nw a, TStart)) asserts) sched)) <= 1)%nat.
 Proof. exact client_race_once. Qed.
-Print Assumptions C15_client_race_once_partial.
+Print Assumptions C15_client_race_once.
 
-Theorem C15_client_race_refuted :
-  exists nw f sched j,
-    (wins j (snd (run_sched nw ([], [(f, TStart); (f, TStart)]) sched)) = 2)%nat.
-Proof. exact client_race_refuted. Qed.
-Print Assumptions C15_client_race_refuted.
+(* any mix of simultaneous client-assertion presentations and grant requests *)
+Theorem C15_race_once : forall w nw st (reqs : list request) sched j,
+  (wins j (snd (run_sched nw (st, map (fun r => (request_flow w nw r, TStart)) reqs) sched)) <= 1)%nat.
+Proof. exact race_once. Qed.
+Print Assumptions C15_race_once.
 
 (* the sequential execution of a request is the schedule of a single thread *)
 Theorem C15_sequential_is_single_thread : forall nw st f,
@@ -172,12 +182,11 @@ Proof. exact op_flow_step. Qed.
 Print Assumptions C15_race_flow_is_history_step.
 
 (* ------------------------------------------------------------------ the monitor *)
-(* on the model's own trace -- any world, start time, history -- the monitor of Cases/CasesC15.v
-   is silent or reports one of the two recorded findings *)
+(* on the model's own trace -- any world, start time, history -- the monitor of Cases/CasesC15.v raises
+   no tag at all (the tags ca:exp_zero_accepted and ca:replay_in_final_second stay in the monitor, so
+   the two repaired defects are re-detected by name should they return) *)
 Theorem C15_monitor_on_model : forall w t0 ops,
-  match pick (mon_steps w t0 [] (model_steps w (start t0) ops)) with
-  | None => True
-  | Some tag => tag = "ca:exp_zero_accepted" \/ tag = "ca:replay_in_final_second"
-  end.
-Proof. exact monitor_verdict_on_model. Qed.
+  mon_steps w t0 [] (model_steps w (start t0) ops) = [] /\
+  pick (mon_steps w t0 [] (model_steps w (start t0) ops)) = None.
+Proof. exact monitor_silent_on_model. Qed.
 Print Assumptions C15_monitor_on_model.
